@@ -4,6 +4,7 @@ The oracle is the extracted Coq model (coq/model/Grouped.v); the theorems of coq
 composition for every table.  Here the six public functions are run side by side with it."""
 import itertools, math, os
 from fractions import Fraction
+from collections import Counter
 import numpy as np
 import pandas as pd
 from core import call_impl, close
@@ -831,6 +832,100 @@ def run_one_feature_list(ctx):
                           site='entropy.renyi2_entropy[one-feature list]')
 
 
+def run_numeric_feature_with_missing(ctx):
+    """ONE numeric feature column (a label, not a list) with missing cells: renyi2_entropy / stdrenyi2_entropy are -log pc and stdpc / pc of
+    that column, and pc / stdpc count a missing cell as one more distinct value (NumPy's unique puts all NaN together) - so a tally that
+    drops the missing rows (value_counts) is another number (seeded change C13-r6m1).  Expected values: the model's std parts of the
+    tokens, NaN being one token."""
+    import pyrepseq.entropy as en
+    rng = ctx.rng
+    for t in range(8 if ctx.quick else 80):
+        n = rng.randint(5, 12)
+        vals = [rng.choice([1.0, 2.0, 2.0, 3.5, None, None]) for _ in range(n)]
+        if None not in vals:
+            vals[rng.randrange(n)] = None
+        toks = [0 if v is None else int(v * 2) for v in vals]
+        parts = ctx.oracle.run([('api_c13_std_parts', [toks])])[0]
+        num = sum(1 for i in range(n) for j in range(n) if i != j and toks[i] == toks[j])
+        q = Fraction(num, n * (n - 1))
+        df = pd.DataFrame(dict(s=[float('nan') if v is None else v for v in vals], g=[rng.choice('ab') for _ in range(n)]))
+        base = rng.choice([2.0, math.e, 10.0])
+        r = call_impl(en.renyi2_entropy, df, 's', base=base)
+        ok = r[0] == 'ok' and ((q == 0 and (math.isinf(float(r[1])) or float(r[1]) > 700)) or
+                               (q > 0 and abs(base ** (-float(r[1])) - float(q)) <= 1e-9))
+        ctx.count('numeric_feature_with_missing_cells')
+        ctx.case(nontrivial_key=('numeric-feature-missing', tuple(toks)) if 0 < q < 1 else None)
+        site = 'entropy.renyi2_entropy[numeric feature, missing cells]'
+        if not ok:
+            ctx.violation('property', 'renyi2_entropy(table with numeric column s = %s, features=\'s\', base=%r) = %s, but pc of that column is %s '
+                          '(the missing cells are one distinct value) and the entropy its -log' % (vals, base, r, q),
+                          dict(case=dict(cells=vals, base=base, expected=str(q)), site=site), site=site)
+            return
+        r = call_impl(en.stdrenyi2_entropy, df, 's', base=base)
+        v = std_ok(r, parts, base)
+        ctx.count('numeric_feature_missing_std_defined' if v is not None else 'numeric_feature_missing_std_undefined')
+        site = 'entropy.stdrenyi2_entropy[numeric feature, missing cells]'
+        if v is False:
+            ctx.violation('property', 'stdrenyi2_entropy(table with numeric column s = %s, features=\'s\', base=%r) = %s, but stdpc / pc of that '
+                          'column (the missing cells are one distinct value) has (defined, varpc, pc) = %s' % (vals, base, r, parts),
+                          dict(case=dict(cells=vals, base=base, parts=str(parts)), site=site), site=site)
+            return
+
+
+def run_deep_group(ctx):
+    """one group far larger than the others (10 001 rows and more: a deep repertoire next to shallow ones): pcDelta_grouped_cross(condensed)
+    is still, for every pair of groups, the two-collection pcDelta of ALL their rows - no silent sub-sampling (seeded change C13-r6m2: a default
+    maxseqs).  The deep group repeats a few motifs, so the expected histogram is the multiplicity-weighted histogram of the model's
+    distances (api_lev) between distinct strings, an exact rational per bin."""
+    import pyrepseq.distance as di
+    rng = ctx.rng
+    motifs = ['CASSLGQ', 'CASSLAQ', 'CASSPGQ', 'CASRLGQY', 'CAWSVGQ', 'CASSL', 'CATSRDNEQF', 'CASS', 'CAS', 'CASSLGQETQYF']
+    sizes = [10001, rng.choice([10500, 12000, 20011])] if ctx.quick else [10001, 10002, 16385, 32769, 65537, 100003]
+    edges = list(range(0, 31))
+    for N in sizes:
+        w = [rng.choice([1, 1, 2, 5, 9]) for _ in motifs]
+        deep = [m for m, c in zip(motifs, w) for _ in range(c)]
+        deep = (deep * (N // len(deep) + 1))[:N]
+        rng.shuffle(deep)
+        shallow = {'s1': [rng.choice(motifs) for _ in range(rng.randint(1, 4))], 's2': [rng.choice(motifs) for _ in range(rng.randint(2, 3))]}
+        rows = [('deep', x) for x in deep] + [(g, x) for g, xs in shallow.items() for x in xs]
+        rng.shuffle(rows)
+        df = pd.DataFrame(dict(donor=[g for g, _ in rows], cdr3=[x for _, x in rows]))
+        groups = dict(shallow, deep=deep)
+        names = sorted(groups)
+        pairs = [(g, h) for i, g in enumerate(names) for h in names[i + 1:]]
+        need = sorted({(a, b) for g, h in pairs for a in set(groups[g]) for b in set(groups[h])})
+        dist = dict(zip(need, ctx.oracle.run([('api_lev', [a, b]) for a, b in need])))
+        r = call_impl(di.pcDelta_grouped_cross, df, 'donor', 'cdr3', condensed=True, bins=np.array(edges))
+        ctx.count('deep_group N>%d' % max(x for x in (9999, 16384, 65536) if N > x))
+        ctx.case(nontrivial_key=('deep-group', N, tuple(w)))
+        site = 'distance.pcDelta_grouped_cross[one group above 10 000 rows]'
+        why = None
+        if r[0] != 'ok':
+            why = 'raised / returned %s' % (r,)
+        else:
+            for g, h in pairs:
+                cg, ch = Counter(groups[g]), Counter(groups[h])
+                exp = [Fraction(0)] * (len(edges) - 1)
+                for a, ca in cg.items():
+                    for b, cb in ch.items():
+                        exp[int(dist[(a, b)])] += Fraction(ca * cb, len(groups[g]) * len(groups[h]))
+                try:
+                    got = np.asarray(r[1].loc[(g, h)], dtype=float).ravel()
+                except Exception as e:
+                    why = 'no row for the pair %s: %s' % ((g, h), e)
+                    break
+                if got.shape != (len(exp),) or any(abs(x - float(q)) > 1e-9 for x, q in zip(got, exp)):
+                    why = 'row (%s, %s) = %s, but the two-collection pcDelta of all %d x %d pairs is %s' % (
+                        g, h, [round(float(x), 6) for x in got[:14]], len(groups[g]), len(groups[h]), [str(q) for q in exp[:14]])
+                    break
+        if why:
+            ctx.violation('property', 'pcDelta_grouped_cross(table with a group of %d rows over %d motifs and two shallow groups %s, by=donor, '
+                          'condensed=True, bins=0..30): %s' % (N, len(motifs), shallow, why),
+                          dict(case=dict(N=N, weights=w, shallow=shallow), site=site), site=site)
+            return
+
+
 def run(ctx):
     rng = ctx.rng
     ctx.rule = ('(a) every table with <= %d rows over group keys {b, a, c} and sequences {A, B}: pc_conditional, pc_grouped_cross, pcDelta_grouped(bins=0), '
@@ -853,6 +948,8 @@ def run(ctx):
     ctx.exhaustive = True
     run_empty(ctx)
     run_one_feature_list(ctx)
+    run_numeric_feature_with_missing(ctx)
+    run_deep_group(ctx)
     cases = [gen_case(rng, ctx.quick) for _ in range(250 if ctx.quick else 4000)]
     # every rarely used form at least a few times whatever the seed
     for x in EXTRAS:
@@ -884,7 +981,9 @@ def run(ctx):
 def replay(ctx, obj):
     rp = obj.get('replay') or {}
     case = rp.get('case')
-    if not case:
+    if not case or 'rows' not in case:
+        # the special families (one-feature list, numeric feature with missing cells, deep group) are re-run as a whole: they draw from the
+        # run's own seed, which the replay file carries
         return run(ctx)
     case.setdefault('wbad', None)
     if not case['rows']:
